@@ -166,6 +166,24 @@ def try_info(body, res_local):
     return out
 
 
+def error_constructions(F, body):
+    """Every place where `body` (helpers spliced into it included) makes an error value: a call of a local function all of
+    whose results are Err, or an `Err(..)` aggregate — wherever the value goes next."""
+    out = []
+    for bb in sorted(body.normal_blocks()):
+        for s in body.stmts(bb):
+            r = s.get("r") or {}
+            if s.get("k") == "assign" and r.get("k") == "agg" and r.get("adt") == "std::result::Result" and r.get("vname") == "Err":
+                out.append(body.where(bb))
+        t = body.term(bb)
+        if t["k"] == "call":
+            c = t["callee"]
+            lc = c.get("resolved") if c.get("rlocal") else (c.get("def") if c.get("local") else None)
+            if lc and always_err(F, lc):
+                out.append(body.where(bb))
+    return out
+
+
 def own_errors(F, body):
     """Places where `body` itself makes an error its result: an `Err(..)` aggregate assigned to the return place, or a call
     into the return place of a local function all of whose results are Err (err_exit_code and friends).  Errors arriving
